@@ -2964,7 +2964,7 @@ int real_sched_yield(void) {
 #if MYTH_WRAP == MYTH_WRAP_VANILLA
   return sched_yield();
 #elif MYTH_WRAP == MYTH_WRAP_LD
-  return sched_yield();
+  return __real_sched_yield();
 #elif MYTH_WRAP == MYTH_WRAP_DL
   if (!real_function_table.sched_yield) ensure_real_functions();
   assert(real_function_table.sched_yield);
@@ -2981,7 +2981,7 @@ unsigned int real_sleep(useconds_t seconds) {
 #if MYTH_WRAP == MYTH_WRAP_VANILLA
   return sleep(seconds);
 #elif MYTH_WRAP == MYTH_WRAP_LD
-  return sleep(seconds);
+  return __real_sleep(seconds);
 #elif MYTH_WRAP == MYTH_WRAP_DL
   if (!real_function_table.sleep) ensure_real_functions();
   assert(real_function_table.sleep);
@@ -2998,7 +2998,7 @@ int real_usleep(useconds_t usec) {
 #if MYTH_WRAP == MYTH_WRAP_VANILLA
   return usleep(usec);
 #elif MYTH_WRAP == MYTH_WRAP_LD
-  return usleep(usec);
+  return __real_usleep(usec);
 #elif MYTH_WRAP == MYTH_WRAP_DL
   if (!real_function_table.usleep) ensure_real_functions();
   assert(real_function_table.usleep);
@@ -3015,7 +3015,7 @@ int real_nanosleep(const struct timespec *req, struct timespec *rem) {
 #if MYTH_WRAP == MYTH_WRAP_VANILLA
   return nanosleep(req, rem);
 #elif MYTH_WRAP == MYTH_WRAP_LD
-  return nanosleep(req, rem);
+  return __real_nanosleep(req, rem);
 #elif MYTH_WRAP == MYTH_WRAP_DL
   if (!real_function_table.nanosleep) ensure_real_functions();
   assert(real_function_table.nanosleep);
